@@ -645,7 +645,15 @@ class FunctionParser(BaseParser):
             parsed_args.append(arg)
 
         # 2. check if unprovided args has default give, and the unprovided required args
-        for index, field in self.positional_only_fields:
+        skipped = []
+        for index, key in enumerate(self.pos_only_keys):
+            field = self.get_field(key)
+            if not field:
+                # excluded var (def f(a, _b=2, c=3, /)): not parsed, but when it is not given while a later
+                # positional-only default is filled in, its own default has to hold its place
+                if self.arg_index.get(key, index) >= len(args):
+                    skipped.append(key)
+                continue
             if field.attname in parsed_keys:
                 continue
             if field.is_required(options=context.options):
@@ -657,6 +665,15 @@ class FunctionParser(BaseParser):
             if not unprovided(default):
                 # this position is definitely after parsed_args
                 # because required args is always (we enforce check) ahead of default args
+                if skipped:
+                    params = dict(self.parameters)
+                    defaults = [params[k].default for k in skipped]
+                    if inspect.Parameter.empty in defaults:
+                        # a required excluded var is missing: leave the call short, python reports it
+                        parsed_keys.append(field.attname)
+                        continue
+                    parsed_args.extend(defaults)
+                    skipped = []
                 parsed_args.append(default)
             parsed_keys.append(field.attname)  # need to append parsed as well
             # positional only field is excluded no matter the arg is provided or not
